@@ -475,6 +475,15 @@ Section Manager.
               (fold_left (fun t e => insert_trie t (snd e)) (p2n s) (T [])).
 
   (* ---------------------------------------------------------------- *)
+  (* is the cached answer still right about the store?  (only another NamespaceManager on
+     the same store can make it wrong) *)
+  Definition boundb (s : mst) (q : qn) : bool :=
+    opt_eqb str_eqb (dget (p2n s) (fst (fst q))) (Some (snd (fst q))).
+  Definition cache_okb (s : mst) (u : str) : bool :=
+    match dget (cache s) u with Some q => boundb s q | None => true end.
+  Definition cache_s_okb (s : mst) (u : str) : bool :=
+    match dget (cache_s s) u with Some q => boundb s q | None => true end.
+
   Inductive op :=
   | OBind (p : option str) (n : str) (ov rep : bool)
   | OQname (u : str)
@@ -532,6 +541,25 @@ Section Manager.
         (s, match m_expand s c with inl x => RS x | inr e => RExn e end)
     | OReset => (m_reset s, RUnit)
     | OOther => (s, RUnit)
+    end.
+
+  (* no cache entry that this operation answers from is stale *)
+  Definition op_hits_ok (s : mst) (o : op) : bool :=
+    match o with
+    | OQname u | OCurie u _ | OCompute u _ => cache_okb s u
+    | OStrict u gen =>
+        cache_okb s u &&
+        (let r := m_compute s u gen in
+         match snd r with
+         | inl q => if ncname (snd q) then true else cache_s_okb (fst r) u
+         | inr _ => true
+         end)
+    | ONorm u =>
+        match split u with
+        | None => true
+        | Some (ns, _) => match dget (n2p s) ns with None => true | Some _ => cache_okb s u end
+        end
+    | _ => true
     end.
 
   (* what is observed after every operation *)
@@ -693,12 +721,135 @@ Definition conf_spec (c : case) (o : cobs) : bool :=
 
 (* The model-backed suites hand the implementation's observation over in the packed form
    as well; the model's is plain.  Both are compared and checked after decoding. *)
-Inductive dobs := Plain (o : obs) | Packed (t : list str) (l : list isnap).
+(* delta form: a snapshot whose two listings are those of the previous snapshot says so *)
+Record jsnap := { j_res : ires; j_lists : option (list (N * N) * list (N * N)); j_api : bool }.
+Fixpoint dec_j (t : list str) (prev : list (str * str) * list (str * str)) (l : list jsnap) : list snap :=
+  match l with
+  | [] => []
+  | x :: r =>
+      let cur := match j_lists x with
+                 | Some (a, b) => (dec_pairs t a, dec_pairs t b)
+                 | None => prev
+                 end in
+      {| s_res := dec_res t (j_res x); s_list := fst cur; s_rev := snd cur; s_api := j_api x |}
+      :: dec_j t cur r
+  end.
+
+Inductive dobs := Plain (o : obs) | Packed (t : list str) (l : list isnap) | PackedD (t : list str) (l : list jsnap).
 Definition dec_d (d : dobs) : obs :=
-  match d with Plain o => o | Packed t l => map (dec_snap t) l end.
+  match d with Plain o => o | Packed t l => map (dec_snap t) l | PackedD t l => dec_j t ([], []) l end.
 Definition d_model (c : case) : dobs := Plain (model_obs c).
 Definition d_eqb (a b : dobs) : bool := obs_eqb (dec_d a) (dec_d b).
 Definition d_spec (c : case) (o : dobs) : bool := spec_ok c (dec_d o).
 
 (* F6e region (conformance runs over a Dataset / ConjunctiveGraph) *)
 Definition conf_kf (c : case) : N := if N.eqb (c_tag c) 1 then 4%N else 0%N.
+
+(* ------------------------------------------------------------------ *)
+(* Several NamespaceManagers over one store: the dataset's manager, the manager
+   ConjunctiveGraph.default_context builds for itself (finding F6e), a user's second Graph on
+   the same store.  Each manager has its own caches and tries; the two store dictionaries are
+   shared.  An operation goes through one manager. *)
+Record mgr := { g_cache : dict qn; g_cache_s : dict qn; g_strie : list str; g_trie : trie }.
+Record world := { w_p2n : dict str; w_n2p : dict str; w_mgrs : list mgr }.
+
+Definition g_empty : mgr := {| g_cache := []; g_cache_s := []; g_strie := []; g_trie := T [] |}.
+Definition w_init : world := {| w_p2n := []; w_n2p := []; w_mgrs := [] |}.
+
+Definition assemble (w : world) (g : mgr) : mst :=
+  {| p2n := w_p2n w; n2p := w_n2p w; cache := g_cache g; cache_s := g_cache_s g;
+     strie := g_strie g; trie_ := g_trie g |}.
+Definition mgr_of (s : mst) : mgr :=
+  {| g_cache := cache s; g_cache_s := cache_s s; g_strie := strie s; g_trie := trie_ s |}.
+
+Fixpoint set_nth {A} (l : list A) (i : nat) (x : A) : list A :=
+  match l, i with
+  | [], _ => []
+  | _ :: r, O => x :: r
+  | y :: r, S j => y :: set_nth r j x
+  end.
+
+Inductive wop :=
+| WOp (i : N) (o : op)                  (* operation o through manager number i *)
+| WNew (binds : list (str * str)).      (* NamespaceManager(graph, bind_namespaces): a new manager that
+                                           binds its stock prefixes, each with self.bind(prefix, ns) *)
+
+Definition wop_op (x : wop) : op := match x with WOp _ o => o | WNew _ => OOther end.
+
+Section World.
+  Variables (split split_s : str -> option (str * str)) (ncname : str -> bool).
+
+  Definition w_step (w : world) (x : wop) : world * res :=
+    match x with
+    | WOp i o =>
+        match nth_error (w_mgrs w) (N.to_nat i) with
+        | None => (w, RUnit)
+        | Some g =>
+            let r := m_step split split_s ncname (assemble w g) o in
+            ({| w_p2n := p2n (fst r); w_n2p := n2p (fst r);
+                w_mgrs := set_nth (w_mgrs w) (N.to_nat i) (mgr_of (fst r)) |}, snd r)
+        end
+    | WNew binds =>
+        let s := fold_left (fun s e => fst (m_bind s (Some (fst e)) (snd e) true false)) binds
+                           (assemble w g_empty) in
+        ({| w_p2n := p2n s; w_n2p := n2p s; w_mgrs := w_mgrs w ++ [mgr_of s] |}, RUnit)
+    end.
+
+  Definition w_snap (w : world) (r : res) : snap :=
+    {| s_res := r; s_list := w_p2n w; s_rev := w_n2p w; s_api := true |}.
+
+  Fixpoint w_run (w : world) (ops : list wop) : list snap :=
+    match ops with
+    | [] => []
+    | x :: r => let y := w_step w x in w_snap (fst y) (snd y) :: w_run (fst y) r
+    end.
+
+  (* does this step answer from a cache entry that another manager's bind has made stale? *)
+  Definition w_hits_ok (w : world) (x : wop) : bool :=
+    match x with
+    | WOp i o => match nth_error (w_mgrs w) (N.to_nat i) with
+                 | Some g => op_hits_ok split ncname (assemble w g) o
+                 | None => true
+                 end
+    | WNew _ => true
+    end.
+
+  Fixpoint w_stale (w : world) (ops : list wop) : bool :=
+    match ops with
+    | [] => false
+    | x :: r => negb (w_hits_ok w x) || w_stale (fst (w_step w x)) r
+    end.
+
+  Fixpoint w_final (w : world) (ops : list wop) : world :=
+    match ops with [] => w | x :: r => w_final (fst (w_step w x)) r end.
+End World.
+
+(* every operation goes through a manager that exists at that point *)
+Fixpoint wf_from (n : nat) (ops : list wop) : bool :=
+  match ops with
+  | [] => true
+  | WOp i _ :: r => Nat.ltb (N.to_nat i) n && wf_from n r
+  | WNew _ :: r => wf_from (S n) r
+  end.
+
+Record wcase := { wc_cats : cattab; wc_ops : list wop }.
+Definition wc_wf (c : wcase) : bool := wf_from 0 (wc_ops c).
+Definition wc_split (c : wcase) := split_uri (cat_of (wc_cats c)) false.
+Definition wc_split_s (c : wcase) := split_uri (cat_of (wc_cats c)) true.
+Definition wc_ncname (c : wcase) := is_ncname (cat_of (wc_cats c)).
+
+Definition w_model_obs (c : wcase) : obs :=
+  w_run (wc_split c) (wc_split_s c) (wc_ncname c) w_init (wc_ops c).
+Definition w_spec_ok (c : wcase) (o : obs) : bool := all_ok (map wop_op (wc_ops c)) o.
+Definition wd_model (c : wcase) : dobs := Plain (w_model_obs c).
+Definition wd_spec (c : wcase) (o : dobs) : bool := w_spec_ok c (dec_d o).
+(* trigger of finding F6e, as narrow as it gets: some operation answered from a cache entry
+   whose prefix another manager has unbound or rebound meanwhile *)
+Definition w_kf (c : wcase) : N :=
+  if w_stale (wc_split c) (wc_split_s c) (wc_ncname c) w_init (wc_ops c) then 5%N else 0%N.
+
+(* the conformance suites in the delta form *)
+Definition confd_model (c : case) : dobs := Plain [].
+Definition confd_eqb (a b : dobs) : bool := true.
+Definition confd_spec (c : case) (o : dobs) : bool :=
+  match dec_d o with [] => true | l => all_ok (c_ops c) l end.
